@@ -34,7 +34,7 @@ Theorem C16_setup_first : forall ls,
 Proof. exact setup_first. Qed.
 Print Assumptions C16_setup_first.
 
-(* the defect repaired by fix 4b5e611: publishing the transport before SETUP is queued breaks it *)
+(* the defect repaired by fix c522af0: publishing the transport before SETUP is queued breaks it *)
 Theorem C16_setup_first_early_publish_refuted : exists ls, wire (fold_left estep ls conn_init) = [TOther 7].
 Proof. exact early_publish_refuted. Qed.
 Print Assumptions C16_setup_first_early_publish_refuted.
